@@ -251,7 +251,7 @@ class Ctx:
             raise Infra("harness timeout: %s" % " ".join(args))
         return p
 
-    def replay(self, cases, timeout=900, jobs=None, name=None, confirm=True):
+    def replay(self, cases, timeout=900, jobs=None, name=None, confirm=True, postprocess=None):
         """Run `vcheck replay` over a list of case dicts.  Returns the merged
         result dict; confirmed violations are appended to self.violations (or
         matched against known findings)."""
@@ -276,6 +276,8 @@ class Ctx:
         for s in res.get("samples", []):
             if len(self.samples) < 6:
                 self.samples.append(s)
+        if postprocess:
+            res["violations"] = postprocess(res.get("violations", []))
         if confirm:
             self.handle_violations(res.get("violations", []))
         return res
@@ -316,7 +318,8 @@ class Ctx:
             # if the case was reported as a crash; otherwise infrastructure.
             return False
         res = json.load(open(out))
-        return any(x["key"] == v["key"] for x in res.get("violations", []))
+        want = v.get("orig_key", v["key"])
+        return any(x["key"] == want for x in res.get("violations", []))
 
     # ---------------------------------------------------------------- finish
     def finish(self, level="model_checking"):
